@@ -1,0 +1,87 @@
+// SPDX-License-Identifier: Apache-2.0
+//! Verification-only forwarding wrappers (feature `echo_verif`).
+//!
+//! Every function here forwards to a crate-private kernel so that out-of-tree
+//! solver harnesses (`/verif/harnesses`) can drive it with arbitrary inputs.
+//! The wrappers contain no logic of their own beyond building the argument
+//! structs; nothing in this file is compiled unless the feature is enabled.
+
+use std::cmp::Ordering;
+
+use crate::footprint::Footprint;
+use crate::ident::{CompactRuleId, Hash, NodeId, NodeKey, WarpId};
+use crate::scheduler::{LegacyScheduler, PendingRewrite, RadixScheduler, RewritePhase};
+use crate::tick_delta::OpOrigin;
+use crate::tx::TxId;
+
+// ----------------------------------------------------------------------------
+// scheduler.rs: sort key kernels and the pending queue
+// ----------------------------------------------------------------------------
+
+/// `scheduler::cmp_thin` on thin records built from `(scope, rule, nonce)`.
+#[must_use]
+pub fn thin_cmp(a: (&[u8; 32], u32, u32), b: (&[u8; 32], u32, u32)) -> Ordering {
+    crate::scheduler::verif_cmp_thin(a, b)
+}
+
+/// `scheduler::bucket16` on a thin record built from `(scope, rule, nonce)`.
+#[must_use]
+pub fn thin_bucket16(a: (&[u8; 32], u32, u32), pass: usize) -> u16 {
+    crate::scheduler::verif_bucket16(a, pass)
+}
+
+/// `PendingTx::<u32>::enqueue` for every `(scope, rule, payload)` in `script`, in
+/// order, followed by `drain_in_order`.
+#[must_use]
+pub fn pending_enqueue_drain(script: &[([u8; 32], u32, u32)]) -> Vec<u32> {
+    crate::scheduler::verif_pending_enqueue_drain(script)
+}
+
+fn pending_rewrite(fp: &Footprint) -> PendingRewrite {
+    let zero: Hash = [0u8; 32];
+    PendingRewrite {
+        rule_id: zero,
+        compact_rule: CompactRuleId(0),
+        scope_hash: zero,
+        scope: NodeKey {
+            warp_id: WarpId(zero),
+            local_id: NodeId(zero),
+        },
+        footprint: fp.clone(),
+        phase: RewritePhase::Matched,
+        origin: OpOrigin::default(),
+    }
+}
+
+/// `RadixScheduler::reserve` on a fresh scheduler for each footprint in order;
+/// returns the accept decision per candidate.
+#[must_use]
+pub fn radix_reserve(fps: &[Footprint]) -> Vec<bool> {
+    let mut s = RadixScheduler::default();
+    let tx = TxId::from_raw(1);
+    fps.iter()
+        .map(|fp| {
+            let mut pr = pending_rewrite(fp);
+            s.reserve(tx, &mut pr)
+        })
+        .collect()
+}
+
+/// `LegacyScheduler::reserve` on a fresh scheduler for each footprint in order.
+#[must_use]
+pub fn legacy_reserve(fps: &[Footprint]) -> Vec<bool> {
+    let mut s = LegacyScheduler::default();
+    let tx = TxId::from_raw(1);
+    fps.iter()
+        .map(|fp| {
+            let mut pr = pending_rewrite(fp);
+            s.reserve(tx, &mut pr)
+        })
+        .collect()
+}
+
+/// `engine_impl::footprints_conflict` (the predicate receipts use to name blockers).
+#[must_use]
+pub fn receipt_conflict(a: &Footprint, b: &Footprint) -> bool {
+    crate::engine_impl::footprints_conflict(a, b)
+}
